@@ -131,3 +131,52 @@ func longStringRanges(c *Ctx, dr *Driver, be string) bool {
 	}
 	return true
 }
+
+// dropOneOfSeveralIndexes (C02): a collection with three indexes, one of them dropped (the first, the middle, the last
+// created): every query that can be planned through a REMAINING index - range, equality, sort, bulk update - answers as
+// the un-indexed twin does, and the raw dump holds the entries of exactly the remaining indexes.
+func dropOneOfSeveralIndexes(c *Ctx, dr *Driver, be string) bool {
+	im := NewImpl(be, c.Scratch)
+	defer im.Destroy()
+	fields := []string{"x", "y", "z"}
+	for _, victim := range fields {
+		lines := []J{opLine("createCollection", J{"coll": hx("d0")}), opLine("createCollection", J{"coll": hx("d3")})}
+		for _, f := range fields {
+			lines = append(lines, opLine("createIndex", J{"coll": hx("d3"), "field": hx(f)}))
+		}
+		docs := []interface{}{}
+		for j := 0; j < 12; j++ {
+			docs = append(docs, encDoc(map[string]interface{}{"_id": fixedId(697000 + j), "x": int64(j), "y": int64(11 - j), "z": int64(j % 4)}))
+		}
+		for _, coll := range []string{"d0", "d3"} {
+			lines = append(lines, opLine("insert", J{"coll": hx(coll), "docs": docs}))
+		}
+		lines = append(lines, opLine("dropIndex", J{"coll": hx("d3"), "field": hx(victim)}), J{"k": "dump"}, opLine("listIndexes", J{"coll": hx("d3")}))
+		probe := func() {
+			for _, coll := range []string{"d0", "d3"} {
+				for _, f := range fields {
+					fx := hx(f)
+					lines = append(lines,
+						opLine("findAll", J{"q": J{"coll": hx(coll), "crit": J{"and": []interface{}{J{"cmp": []interface{}{"ge", fx, J{"lit": encValue(int64(2))}}}, J{"cmp": []interface{}{"lt", fx, J{"lit": encValue(int64(9))}}}}}, "sort": []interface{}{[]interface{}{hx("_id"), 1}}}}),
+						opLine("count", J{"q": J{"coll": hx(coll), "crit": J{"cmp": []interface{}{"eq", fx, J{"lit": encValue(int64(3))}}}}}),
+						opLine("findAll", J{"q": J{"coll": hx(coll), "sort": []interface{}{[]interface{}{fx, -1}, []interface{}{hx("_id"), 1}}}}))
+				}
+			}
+		}
+		probe()
+		for _, coll := range []string{"d0", "d3"} {
+			lines = append(lines, opLine("update", J{"q": J{"coll": hx(coll), "crit": J{"cmp": []interface{}{"ge", hx("x"), J{"lit": encValue(int64(6))}}}}, "upd": J{"setAll": []interface{}{[]interface{}{hx("z"), encValue(int64(9))}}}}))
+		}
+		lines = append(lines, J{"k": "dump"})
+		probe()
+		o := runHistory(dr, im, lines, HistOpts{})
+		recordHistory(c, lines, &o, be)
+		c.Count("drop-one-of-several-indexes")
+		if o.Index >= 0 {
+			if reportHistoryProblem(c, dr, im, lines, &o, be, HistOpts{}, "drop-one-of-several") {
+				return false
+			}
+		}
+	}
+	return true
+}
